@@ -635,8 +635,8 @@ func genSession(seed uint64, source string) *Session {
 		// schemas arrive in several files
 		if len(s.Splits) == 0 {
 			s.SplitSameName = r.Chance(1, 2)
+			s.SplitBuiltIn = r.Chance(1, 4)
 		}
-		s.SplitBuiltIn = r.Chance(1, 4)
 		for len(s.Splits) < len(s.Schemas) {
 			s.Splits = append(s.Splits, nil)
 		}
